@@ -1341,10 +1341,10 @@ fn cut_sweep(w: &W, kind: Kind) -> Verdict {
 
 /// Every partition of one tiny file into read() chunks (2^(len-1) of them), and every partition
 /// of the writer's output into accepted write() chunks: the quantifier "forall partitions of the
-/// byte stream" decided exhaustively for files of up to 13 (thorough: 17) bytes.
+/// byte stream" decided exhaustively for files of up to 13 (thorough: 14) bytes.
 fn partitions(w: &W) -> Verdict {
     let kind = if w.chance(1, 2) { Kind::Fastq } else { Kind::Fasta };
-    let limit = if crate::world::thorough() { 17 } else { 13 };
+    let limit = if crate::world::thorough() { 14 } else { 13 };
     let crlf = w.chance(1, 2);
     let mut recs: Vec<Rec> = vec![];
     for _ in 0..2 {
